@@ -52,3 +52,10 @@ Definition all_exported_inert (tbl : list method) : bool :=
 
 Definition no_opaque (tbl : list method) : bool :=
   forallb (fun m => match m_body m with BOpaque => false | _ => true end) tbl.
+
+Fixpoint list_eqb_s (a b : list string) : bool :=
+  match a, b with
+  | [], [] => true
+  | x :: a', y :: b' => String.eqb x y && list_eqb_s a' b'
+  | _, _ => false
+  end.
